@@ -264,6 +264,31 @@ def run(repo, rep, tier):
                                 '(deepcopy needed)')
     r2.notes.append('functions iterating iter_names() of an instance store: '
                     '%d' % nn)
+    # ---- R9: an empty PropertyList is a filter, not 'no filter' ------------
+    from ..sentinel import truthiness_uses
+    r9 = rep.rule('C10.R9', 'PropertyList is tested with `is None`: the empty '
+                  'list selects no properties, None selects all')
+    PL = ('property_list', 'PropertyList', 'propertylist')
+    for path in MOCK_FILES:
+        for f in repo.module(path).all_funcs():
+            uses_pl = [n for n in walk_no_nested(f.node)
+                       if isinstance(n, ast.Name) and n.id in PL]
+            if not uses_pl:
+                continue
+            r9.sites += 1
+            r9.functions.add(f.fq)
+            bad = truthiness_uses(f, lambda n: isinstance(n, ast.Name) and
+                                  n.id in PL)
+            r9.ob(not bad, f.qualname, {'function': f.qualname})
+            for u in bad[:1]:
+                rep.finding(r9, f.qualname, u.id, 'truthiness-of-propertylist',
+                            path, u.lineno,
+                            'PropertyList is tested by truthiness: an empty '
+                            'list (return / modify no properties) is handled '
+                            'like None (all properties)')
+    if r9.sites < 8:
+        raise AnalysisError('only %d functions using PropertyList found'
+                            % r9.sites)
     # ---- R3 ---------------------------------------------------------------
     passthrough = {}      # function name -> param index of `copy`
     for path in MOCK_FILES:
